@@ -266,7 +266,9 @@ def c20_cases(tier, seed):
 # C10: unmanaged parts
 # ==================================================================================================
 C10_HDR = ("from inline_snapshot import snapshot, Is\nfrom dataclasses import dataclass, field\n\n\n@dataclass\nclass DC:\n    a: object\n"
-           "    b: list = field(default_factory=list)\n\n\n")
+           "    b: list = field(default_factory=list)\n\n\n"
+           # DD: the field that holds the user-controlled part has a default value (5 / 'x' / 'v5' are values the cases use)
+           "@dataclass\nclass DD:\n    b: list = field(default_factory=list)\n    a: object = 5\n\n\n")
 
 
 def c10_cases(tier, seed):
@@ -296,6 +298,8 @@ def c10_cases(tier, seed):
             return "[[" + ", ".join(items) + "], 0+9]"
         if container == "dc":
             return f"DC(a={u}, b=[{', '.join(sib_old)}])"
+        if container == "dcd":
+            return f"DD(b=[{', '.join(sib_old)}], a={u})"
         raise ValueError(container)
 
     def new_value(container, uval, sib_new, pos):
@@ -311,6 +315,8 @@ def c10_cases(tier, seed):
             return "[[" + ", ".join(items) + "], 9]"
         if container == "dc":
             return f"DC(a={uval}, b=[{', '.join(sib_new)}])"
+        if container == "dcd":
+            return f"DD(b=[{', '.join(sib_new)}], a={uval})"
         raise ValueError(container)
 
     sib_variants = [
@@ -329,9 +335,9 @@ def c10_cases(tier, seed):
         ("fstr_fmt", "dyn_a = 5", "f'{dyn_a:>3}|'", "'  5|'", "'other'"),
     ]
     for kname, setup, utext, uval_ok, uval_bad in kinds:
-        for container in ["list", "list_odd", "tuple", "dict", "nested", "dc"]:
+        for container in ["list", "list_odd", "tuple", "dict", "nested", "dc", "dcd"]:
             for so, sn in sib_variants:
-                positions = [0] if container == "dc" else sorted({0, len(so)} | ({1} if len(so) >= 2 else set()))
+                positions = [0] if container in ("dc", "dcd") else sorted({0, len(so)} | ({1} if len(so) >= 2 else set()))
                 for pos in positions:
                     for correct in (True, False):
                         fls = flagsets if (tier == "thorough" or (container == "list" and correct)) else [rng.choice(flagsets)]
@@ -342,9 +348,12 @@ def c10_cases(tier, seed):
                             # correct (it matches), or entries are matched by key (dict / keyword arguments), or every sibling is equal
                             # (the alignment strips them as common prefix/suffix and the 1:1 rest becomes a replacement).
                             # A wrong unmanaged value among other wrong sequence elements may legitimately be deleted with its element.
-                            forced = correct or container in ("dict", "dc") or so == sn
+                            forced = correct or container in ("dict", "dc", "dcd") or so == sn
+                            # a keyword argument whose observed value equals the field default is removed by update - together
+                            # with the user-controlled expression it holds, which C10 allows ("removed only together with the element")
+                            dropped_default = container == "dcd" and (uval_ok if correct else uval_bad) == "5" and "update" in fl
                             add(f"{kname}/{container}/pos{pos}/{'ok' if correct else 'bad'}", setup, old, new, [utext], ["dyn_a"], correct, fl,
-                                survive=True if forced else None)
+                                survive=True if (forced and not dropped_default) else None)
                             if container == "dict" and not correct:
                                 cases[-1]["sib_keys"] = [f"k{i}" for i in range(len(so) + 1) if i != pos]
     # --- the other ways a snapshot is used: never compared (only `update` can be pending), and `in` (members are tested one by one)
